@@ -34,20 +34,28 @@ func TestDepsOracleSelfTest(t *testing.T) {
 	if !ok {
 		t.Fatal("vector outside the grammar")
 	}
-	commit := func(name string) string { return strings.ReplaceAll(deps.mods[name].commit.String(), "-", "") }
-	lock := func(names ...string) string {
+	// a's lock pins the head of shared (commit 3, with commit 2 of base), b's lock the commit of :r1
+	// (commit 1, with commit 1 of base): the faithful result keeps shared:r1 at its commit and the
+	// newest base.
+	level := map[string]int{baseName: 2, extraName: 1, sharedName: 1}
+	lockAt := func(levels map[string]int, names ...string) string {
 		var b strings.Builder
 		b.WriteString("version: v2\ndeps:\n")
 		for _, n := range names {
-			mod := deps.omni.GetModuleForCommitID(deps.mods[n].commit)
+			rc := deps.reg.at(n, levels[n])
+			mod, _, ok := deps.reg.module(rc.Commit)
+			if !ok {
+				t.Fatal("no module for " + n)
+			}
 			d, err := mod.Digest(bufmodule.DigestTypeB5)
 			if err != nil {
 				t.Fatal(err)
 			}
-			b.WriteString("  - name: " + n + "\n    commit: " + commit(n) + "\n    digest: " + d.String() + "\n")
+			b.WriteString("  - name: " + n + "\n    commit: " + rc.dashless() + "\n    digest: " + d.String() + "\n")
 		}
 		return b.String()
 	}
+	lock := func(names ...string) string { return lockAt(level, names...) }
 	yaml := func(depLines ...string) string {
 		s := "version: v2\nmodules:\n  - path: a\n  - path: b\n"
 		if len(depLines) > 0 {
@@ -74,6 +82,8 @@ func TestDepsOracleSelfTest(t *testing.T) {
 		{"indirect pin dropped", yaml(extraName, sharedName+":r1"), lock(extraName, sharedName), []string{"migrate/lock/pin-dropped/indirect-dependency"}},
 		{"declared pin dropped", yaml(extraName, sharedName+":r1"), lock(baseName, sharedName), []string{"migrate/lock/pin-dropped/declared-dependency"}},
 		{"lock missing", yaml(extraName, sharedName+":r1"), "", []string{"migrate/lock/missing"}},
+		{"older indirect pin kept", yaml(extraName, sharedName+":r1"), lockAt(map[string]int{baseName: 1, extraName: 1, sharedName: 1}, baseName, extraName, sharedName), []string{"migrate/lock/commit-not-latest/indirect-dependency"}},
+		{"pin neither locked nor of the ref", yaml(extraName, sharedName+":r1"), lockAt(map[string]int{baseName: 2, extraName: 1, sharedName: 2}, baseName, extraName, sharedName), []string{"migrate/lock/commit-changed"}},
 	} {
 		after := map[string]string{"buf.yaml": tc.yaml}
 		if tc.lock != "" {
@@ -91,6 +101,63 @@ func TestDepsOracleSelfTest(t *testing.T) {
 		sort.Strings(got)
 		if strings.Join(got, ",") != strings.Join(tc.want, ",") {
 			t.Errorf("%s: got %v want %v", tc.name, got, tc.want)
+		}
+	}
+}
+
+// TestNewestWinsSelfTest: two labels on different commits, and unpinned declarations whose locks
+// disagree: only the newest ref / commit is accepted by the dependency oracle.
+func TestNewestWinsSelfTest(t *testing.T) {
+	deps, err := newDepWorldDeps()
+	if err != nil {
+		t.Fatal(err)
+	}
+	dims := depDims()
+	ix := indexDims(dims)
+	b5 := func(name string, level int) string {
+		rc := deps.reg.at(name, level)
+		mod, _, _ := deps.reg.module(rc.Commit)
+		d, err := mod.Digest(bufmodule.DigestTypeB5)
+		if err != nil {
+			t.Fatal(err)
+		}
+		return "  - name: " + name + "\n    commit: " + rc.dashless() + "\n    digest: " + d.String() + "\n"
+	}
+	for _, tc := range []struct {
+		name        string
+		a, b, pins  int
+		dep         string
+		base, share int
+		want        string
+	}{
+		{"labels, newest kept", 2, 3, 0, sharedName + ":r2", 1, 2, ""},
+		{"labels, oldest kept", 2, 3, 0, sharedName + ":r1", 1, 1, "migrate/deps/ref-not-latest"},
+		{"locks disagree, newest kept", 1, 1, 1, sharedName, 2, 3, ""},
+		{"locks disagree, oldest kept", 1, 1, 1, sharedName, 1, 2, "migrate/lock/commit-not-latest/declared-dependency,migrate/lock/commit-not-latest/indirect-dependency"},
+		{"locks disagree on the declared dependency only, oldest kept", 1, 1, 3, sharedName, 1, 1, "migrate/lock/commit-not-latest/declared-dependency"},
+	} {
+		v := make([]int, len(dims))
+		v[ix["d.a"]], v[ix["d.b"]], v[ix["d.layout"]], v[ix["d.pins"]] = tc.a, tc.b, 1, tc.pins
+		c, ok := buildDepWorld(dims, ix, v, deps)
+		if !ok {
+			t.Fatalf("%s: vector outside the grammar", tc.name)
+		}
+		after := map[string]string{
+			"buf.yaml": "version: v2\nmodules:\n  - path: a\n  - path: b\ndeps:\n  - " + tc.dep + "\n",
+			"buf.lock": "version: v2\ndeps:\n" + b5(baseName, tc.base) + b5(sharedName, tc.share),
+		}
+		col := &collector{}
+		checkMigratedDeps(col, c, after, after, newCounter())
+		if len(col.incomplete) > 0 {
+			t.Fatalf("%s: harness problem %v", tc.name, col.incomplete)
+		}
+		var got []string
+		for sig := range col.violations {
+			got = append(got, sig)
+		}
+		sort.Strings(got)
+		if strings.Join(got, ",") != tc.want {
+			t.Errorf("%s: got %v want %q", tc.name, got, tc.want)
 		}
 	}
 }
